@@ -28,6 +28,7 @@ import (
 	"sort"
 	"strings"
 	"sync"
+	"time"
 
 	"verif/core"
 	"verif/gjs"
@@ -125,6 +126,14 @@ func vlogf(format string, a ...any) {
 	}
 }
 
+// corrupt reports whether the predictions of a part are to be falsified in one
+// place (VERIF_C13_CORRUPT=sync|atomic|bits|float): demonstration that the
+// binding is not vacuous.  sync: the prediction for the replacement is changed,
+// the guard still agrees with the (unchanged) reference prediction => VIOLATION.
+// atomic/bits/float: the one prediction is changed, the native guard disagrees
+// with it => the scenario is discarded and counted (spec_guard_discards = 1).
+func corrupt(part string) bool { return os.Getenv("VERIF_C13_CORRUPT") == part }
+
 // only restricts the run to some parts (development aid): VERIF_C13_PARTS=sync,atomic,bits,float,diff
 func partEnabled(p string) bool {
 	s := os.Getenv("VERIF_C13_PARTS")
@@ -145,36 +154,51 @@ func Run(c *core.Ctx, pool *gjs.Pool) {
 	c.Assumef("sync.Pool is specified by its documented contract (Get returns any value put before and not handed out since, or New(), or nil); iteration order of Map.Range is unspecified")
 	c.Assumef("sync/atomic And*/Or* (added in Go 1.23) have no GopherJS implementation in this tree (it targets Go 1.20) and are not part of the alphabet")
 	c.Assumef("math: only results that are exactly representable on the dyadic grid of FloatGrid.tla are decided; transcendental functions, unicode tables and random bit patterns are compared with native Go by differential sampling outside the specification and only the property's listed function classes are judged there")
-	c.Set("checker_cmd", "tlc SyncPrimsScen (9 invariants + Emit); tlc AtomicScen; tlc BitsValidate; tlc BitsFnScen; tlc FloatGridScen")
+	c.Set("checker_cmd", "tlc SyncPrimsScen (INVARIANTS TypeOK NoEffect ModesAgree MutexInv RWInv WGInv OnceInv MapInv PoolInv Emit); tlc AtomicScen (TypeOK AddWraps ReadsAndSwaps ValueInv Emit); tlc BitsFnScen (Valid Sane Emit); tlc FloatGridScen (Sane Emit)")
 	c.Set("rule", "TLC enumerates every history of the configured length over each primitive's operation alphabet (sync, atomic) and every argument tuple over the boundary grids (math/bits, math); a case is one history / one call; distinct = distinct (configuration, history) or (function, arguments); non-trivial = every case (each executes at least one replaced function)")
+	if p := os.Getenv("VERIF_C13_DUMP_PARAMS"); p != "" { // regenerate spec/C13Params.tla (development aid)
+		os.WriteFile(p, []byte(paramsModule(c)), 0o644)
+	}
+	// the five parts are independent: they run concurrently (TLC with 2 workers each)
+	type part struct {
+		name string
+		run  func() bool
+	}
+	parts := []part{
+		{"sync", func() bool { return runSync(c, pool) }},
+		{"atomic", func() bool { return runAtomic(c, pool) }},
+		{"bits", func() bool { return runBitsFn(c, pool) }},
+		{"float", func() bool { return runFloat(c, pool) }},
+		{"diff", func() bool { runDiff(c, pool); return true }},
+	}
 	exhaustive := true
-	if partEnabled("sync") {
-		if !runSync(c, pool) {
-			exhaustive = false
+	var wg sync.WaitGroup
+	var mu sync.Mutex
+	wall := map[string]float64{}
+	for _, p := range parts {
+		if !partEnabled(p.name) {
+			continue
 		}
-		c.Phase("sync")
+		wg.Add(1)
+		go func(p part) {
+			defer wg.Done()
+			t0 := time.Now()
+			defer func() {
+				if r := recover(); r != nil {
+					c.Infra(fmt.Errorf("harness panic in part %s: %v", p.name, r))
+				}
+			}()
+			ok := p.run()
+			mu.Lock()
+			if !ok {
+				exhaustive = false
+			}
+			wall[p.name] = float64(int(time.Since(t0).Seconds()*10)) / 10
+			mu.Unlock()
+			vlogf("part %s done in %.1fs", p.name, time.Since(t0).Seconds())
+		}(p)
 	}
-	if partEnabled("atomic") {
-		if !runAtomic(c, pool) {
-			exhaustive = false
-		}
-		c.Phase("atomic")
-	}
-	if partEnabled("bits") {
-		if !runBitsFn(c, pool) {
-			exhaustive = false
-		}
-		c.Phase("bits")
-	}
-	if partEnabled("float") {
-		if !runFloat(c, pool) {
-			exhaustive = false
-		}
-		c.Phase("float")
-	}
-	if partEnabled("diff") {
-		runDiff(c, pool)
-		c.Phase("diff")
-	}
+	wg.Wait()
+	c.Set("parts_wall_s", wall)
 	c.Set("exhaustive", exhaustive && os.Getenv("VERIF_C13_PARTS") == "")
 }
